@@ -59,6 +59,15 @@ func (m *Memory) Tag(_ context.Context, desc ocispec.Descriptor, reference strin
 	m.lock.Lock()
 	defer m.lock.Unlock()
 
+	if old, ok := m.index[reference]; ok && old.Digest != desc.Digest {
+		// the reference moves to another content: it no longer tags the old one
+		if oldSet, ok := m.tags[old.Digest]; ok {
+			oldSet.Delete(reference)
+			if len(oldSet) == 0 {
+				delete(m.tags, old.Digest)
+			}
+		}
+	}
 	m.index[reference] = desc
 	tagSet, ok := m.tags[desc.Digest]
 	if !ok {
